@@ -409,3 +409,153 @@ def filter_config_layer(props, quick=True):
                  'of the feature-rich tables, plus filter_candset on that very output; complete output compared with '
                  'the reference (qualifying pairs, missing, both-empty, no-common-token, header, projection, _id)',
                  min_nontrivial=1000, chunksize=1)
+
+
+# ------------------------------------------------------------------ apply_matcher
+
+def _jac(a, b):
+    A, B = set(a), set(b)
+    if not A and not B:
+        return 1.0
+    if not A or not B:
+        return 0
+    return float(len(A & B)) / float(len(A | B))
+
+
+def w_matcher_config(job):
+    """apply_matcher on the rich tables: every combination of operator x threshold x allow_missing x output
+    attributes x prefixes x out_sim_score x n_jobs x (tokenizer, similarity function) on three kinds of candidate
+    set (full cross product; the output of a filter_tables call with allow_missing and n_jobs=2, whose row labels
+    repeat; a reordered subset with string labels, gapped _id and an extra column)."""
+    from py_stringmatching.similarity_measure.jaccard import Jaccard
+    from py_stringmatching.similarity_measure.levenshtein import Levenshtein
+    variant = job['variant']
+    L, R, lvals, rvals = rich_tables(variant)
+    sched.install()
+    lrec = L.to_dict('records')
+    rrec = R.to_dict('records')
+    lpos = {cell(r['x_id']): i for i, r in enumerate(lrec)}
+    rpos = {cell(r['y_id']): j for j, r in enumerate(rrec)}
+    lk, rk = L['x_id'].tolist(), R['y_id'].tolist()
+    cands = {}
+    cs = [(a, b) for a in lk for b in rk]
+    cands['cross-product'] = pd.DataFrame({'_id': list(range(len(cs))), 'l_k': pd.Series([c[0] for c in cs], dtype=L['x_id'].dtype),
+                                           'r_k': pd.Series([c[1] for c in cs], dtype=R['y_id'].dtype)})
+    ft = lib(make_filter_size(), L, R)
+    cands['filter-output'] = ft.rename(columns={'l_x_id': 'l_k', 'r_y_id': 'r_k'})
+    sub = [cs[i] for i in range(len(cs) - 1, -1, -7)]
+    cands['reordered-subset'] = pd.DataFrame({'_id': [5 * i + 2 for i in range(len(sub))],
+                                              'l_k': pd.Series([c[0] for c in sub], dtype=L['x_id'].dtype),
+                                              'r_k': pd.Series([c[1] for c in sub], dtype=R['y_id'].dtype),
+                                              'note': pd.Series(['n%d' % i for i in range(len(sub))], dtype=object)},
+                                             ).set_index(pd.Index(['c%d' % (i % 4) for i in range(len(sub))]))
+    sims = {'jaccard/ws-set': (['ws', True], lambda: Jaccard().get_raw_score, _jac, (0.5, 1.0)),
+            'jaccard/ws-bag': (['ws', False], lambda: Jaccard().get_raw_score, _jac, (0.4,)),
+            'levenshtein/raw': (None, lambda: Levenshtein().get_raw_score, levenshtein, (2,)),
+            'token-count/qg2': (['qg', 2, True, False], lambda: (lambda a, b: float(len(a) - len(b))),
+                                lambda a, b: float(len(a) - len(b)), (0.0,))}
+    viol = []
+    counts = {}
+    calls = nontrivial = 0
+
+    def report(tag, cfg, msg):
+        counts[tag] = counts.get(tag, 0) + 1
+        if tag in job['props'] and len([v for v in viol if v['key'].startswith(tag)]) < MAXV:
+            viol.append({'key': '%s|mconfig|v%d|%s|%s' % (tag, variant, cfg, msg[:60]),
+                         'what': '%s: apply_matcher on the rich tables (variant %d) with %s: %s' % (tag, variant, cfg, msg),
+                         'detail': {}})
+    for cname in job['candsets']:
+        C = cands[cname]
+        crows = C.values.tolist()
+        for sname in job['sims']:
+            spec, mk, ref, ths = sims[sname]
+            reft = None if spec is None else (QgramTokenizer(qval=spec[1], padding=spec[2], return_set=spec[3])
+                                              if spec[0] == 'qg' else make_tokenizer(spec))
+            for t in ths:
+                for op in OPS:
+                    for am in (False, True):
+                        for (lo, ro) in ATTRS:
+                            for (lp, rp) in PREFIXES:
+                                for score in (True, False):
+                                    for nj in job['n_jobs']:
+                                        cfg = 'candset=%s sim=%s t=%r op=%s allow_missing=%s l_out=%s r_out=%s prefixes=%r ' \
+                                              'score=%s n_jobs=%d' % (cname, sname, t, op, am, lo, ro, (lp, rp), score, nj)
+                                        tok = None if spec is None else (
+                                            QgramTokenizer(qval=spec[1], padding=spec[2], return_set=spec[3])
+                                            if spec[0] == 'qg' else make_tokenizer(spec))
+                                        sched.CTL.reset()
+                                        out = lib(__import__('py_stringsimjoin').apply_matcher, C, 'l_k', 'r_k', L, R,
+                                                  'x_id', 'y_id', 's', 't', tok, mk(), t, op, am, lo, ro, lp, rp, score,
+                                                  nj, False)
+                                        calls += 1
+                                        la, ra = dedup(lo, 'x_id'), dedup(ro, 'y_id')
+                                        header = ['_id', lp + 'x_id', rp + 'y_id'] + [lp + a for a in la] + \
+                                                 [rp + a for a in ra] + (['_sim_score'] if score else [])
+                                        exp = []
+                                        for row in crows:
+                                            i, j = lpos[cell(row[1])], rpos[cell(row[2])]
+                                            a, b = lvals[i], rvals[j]
+                                            if isna(a) or isna(b):
+                                                if not am:
+                                                    continue
+                                                sc = '<NA>'
+                                            else:
+                                                x, y = (reft.tokenize(a), reft.tokenize(b)) if reft else (a, b)
+                                                sc = ref(x, y)
+                                                if not OPS[op](sc, t):
+                                                    continue
+                                            r_ = [cell(row[0]), cell(row[1]), cell(row[2])] + \
+                                                 [cell(lrec[i][c]) for c in la] + [cell(rrec[j][c]) for c in ra]
+                                            exp.append(tuple(r_ + ([sc] if score else [])))
+                                        got = [tuple(cell(v) for v in row) for row in out.values.tolist()] if len(C) else []
+                                        if exp:
+                                            nontrivial += 1
+                                        if list(out.columns) != header and len(C):
+                                            report('C05', cfg, 'columns %r, expected %r' % (list(out.columns), header))
+                                        elif got != exp:
+                                            miss_got = [r for r in got if r[-1 if score else 0] == '<NA>']
+                                            tag = 'C05'
+                                            first = next((x for x in zip(got, exp) if x[0] != x[1]), (got[len(exp):][:1], exp[len(got):][:1]))
+                                            report(tag, cfg, 'returned %d rows, expected %d; first difference %r' % (
+                                                len(got), len(exp), first))
+                                            gm = sorted((r[1], r[2]) for r in got if isna_pair(r, lpos, rpos, lvals, rvals))
+                                            em = sorted((r[1], r[2]) for r in exp if isna_pair(r, lpos, rpos, lvals, rvals))
+                                            if gm != em:
+                                                report('C08', cfg, 'pairs with a missing value returned %r, expected %r' % (gm[:4], em[:4]))
+    mine = sum(v for k, v in counts.items() if k in job['props'])
+    return {'cases': calls, 'calls': calls, 'nontrivial': nontrivial,
+            'outcomes': {'configs': calls, 'clean': calls - sum(counts.values())},
+            'extra': dict({'mconfig_discrepancies_' + k: v for k, v in counts.items()}, violations=mine),
+            'viol': viol, 'sample': {'variant': variant, 'candsets': job['candsets'], 'sims': job['sims']}}
+
+
+def isna_pair(r, lpos, rpos, lvals, rvals):
+    return isna(lvals[lpos[r[1]]]) or isna(rvals[rpos[r[2]]])
+
+
+def make_filter_size():
+    """SizeFilter(allow_missing=True).filter_tables with n_jobs=2 as a callable on (L, R)."""
+    import py_stringsimjoin as ssj
+
+    def run(L, R):
+        sched.CTL.reset()
+        f = ssj.SizeFilter(make_tokenizer(['ws', True]), 'JACCARD', 0.3, True, True)
+        return f.filter_tables(L, R, 'x_id', 'y_id', 's', 't', None, None, 'l_', 'r_', 2, False)
+    return run
+
+
+def matcher_config_layer(props, quick=True):
+    from mcx.engine import Layer
+    jobs = []
+    for variant in (0, 1):
+        for cname in ('cross-product', 'filter-output', 'reordered-subset'):
+            for sname in ('jaccard/ws-set', 'jaccard/ws-bag', 'levenshtein/raw', 'token-count/qg2'):
+                jobs.append({'variant': variant, 'candsets': [cname], 'sims': [sname], 'n_jobs': [1, 3] if quick else [1, 2, 4],
+                             'props': list(props)})
+    return Layer('matcher-config-cross', 'checks.configx:w_matcher_config', jobs,
+                 'apply_matcher on the two layouts of the feature-rich tables: 6 operators x thresholds x allow_missing x '
+                 'output attributes x prefixes x out_sim_score x n_jobs x 4 (tokenizer, similarity function) pairs x 3 '
+                 'candidate sets (full cross product: cached tokens; the output of filter_tables(allow_missing, n_jobs=2) '
+                 'with repeated row labels; a reordered subset with string labels, gapped _id, extra column: uncached); '
+                 'rows, order, _id, projected cells and scores compared with the reference',
+                 min_nontrivial=1000, chunksize=1)
